@@ -391,7 +391,7 @@ def coq_cases_text(worlds, cases):
 
 
 def run(ctx):
-    common.proof_stage(ctx, MODULE, THEOREMS, extra_targets=['theories/Model/StreamCases.vo'])
+    common.proof_stage(ctx, MODULE, sorted(set(THEOREMS) | set(common.theorems_of(MODULE))), extra_targets=['theories/Model/StreamCases.vo'])
     common.setup_impl_path()
     self_test_oracle(ctx.rng)
     worlds = build_worlds()
